@@ -90,6 +90,7 @@ type Exec struct {
 	drawSeq   int
 	notes     []string
 	panicStack []*frame
+	spawned   []string
 	model     map[string]uint64
 	noModel   bool
 	regions   []string
